@@ -215,6 +215,48 @@ pub mod sync {
         }
     }
 
+    /// `Arc`'s reference-count inspecting functions are a communication channel between threads too
+    /// ("am I the only owner?"). These wrappers make them yield points; the pointer type itself stays `std`.
+    pub mod arc {
+        use std::sync::Arc;
+
+        use super::super::yield_point;
+
+        pub fn strong_count<T: ?Sized>(this: &Arc<T>) -> usize {
+            yield_point("arc-count");
+            let n = Arc::strong_count(this);
+            yield_point("arc-count-read");
+            n
+        }
+
+        pub fn weak_count<T: ?Sized>(this: &Arc<T>) -> usize {
+            yield_point("arc-count");
+            let n = Arc::weak_count(this);
+            yield_point("arc-count-read");
+            n
+        }
+
+        pub fn get_mut<T: ?Sized>(this: &mut Arc<T>) -> Option<&mut T> {
+            yield_point("arc-get-mut");
+            Arc::get_mut(this)
+        }
+
+        pub fn make_mut<T: Clone>(this: &mut Arc<T>) -> &mut T {
+            yield_point("arc-make-mut");
+            Arc::make_mut(this)
+        }
+
+        pub fn try_unwrap<T>(this: Arc<T>) -> Result<T, Arc<T>> {
+            yield_point("arc-try-unwrap");
+            Arc::try_unwrap(this)
+        }
+
+        pub fn into_inner<T>(this: Arc<T>) -> Option<T> {
+            yield_point("arc-into-inner");
+            Arc::into_inner(this)
+        }
+    }
+
     pub mod atomic {
         use std::fmt;
 
